@@ -79,7 +79,7 @@ def finish(a, meta):
     dest = os.path.join(VERIF, 'seeded', a.name)
     os.makedirs(dest, exist_ok=True)
     for f in ('patch.diff', 'demo.py', 'notes.md'):
-        if os.path.exists(f'{a.src}/{f}'):
+        if os.path.exists(f'{a.src}/{f}') and os.path.realpath(f'{a.src}/{f}') != os.path.realpath(os.path.join(dest, f)):
             shutil.copy(f'{a.src}/{f}', dest)
     prev = {}
     mp = os.path.join(dest, 'meta.json')
